@@ -4,10 +4,14 @@ stone, CPLS, pitfall) and Ramsey-type benchmarks (ram, vdw, ptn).
 Each entry (see notes/AGENT_GUIDE.md):
   name, prop, params(rng, tier), build(p, formula_class), request(p), numvar_doc(p),
   decode_ok(p, a), exists(p), cli(p, tmpdir)
-and, for the two families with an unrepaired defect of cnfgen (DESIGN section 6.6),
+and, for the two families that have (had) a defect in cnfgen (DESIGN section 6.6; pitfall D31 is still in
+the code, vdw D12 was repaired by commit f79a20a),
   request_spec(p)  -- the request for the DOCUMENTED behaviour (model variant `spec`);
-                      `request` is the code as it is (`as_is`)
-  finding          -- dict(site=..., cls=...) used when the code agrees with `as_is` only.
+                      `request` is the model variant of the code as it is today
+  alternatives(p)  -- list of dict(label, request, finding): every model variant the implementation may
+                      agree with, documented ones first; `finding` = dict(site, cls) when agreement with
+                      that variant means the defect is (still / again) in the code, else None.
+                      Reusers (C08, C10, C17) should accept agreement with any alternative.
 `kind`: 'contradiction' (documented unsatisfiable), 'planted', 'ramsey'.
 `build`, `request`, `cli` are side-effect free (pitfall forces the graph that
 networkx drew for p['seed'] by patching networkx.random_regular_graph during the call).
@@ -461,12 +465,30 @@ def pitfall_build(p, fc):
         networkx.random_regular_graph = real
 
 
+def _pitfall_req(variant, p):
+    return cmd('fam_pitfall', variant, p['v'], p['d'], p['ny'], p['nz'], p['k'], p['edges'])
+
+
 def pitfall_request(p):
-    return cmd('fam_pitfall', 'as_is', p['v'], p['d'], p['ny'], p['nz'], p['k'], p['edges'])
+    """the code as it is today: shift_edgelit unrepaired (D31), argument checks of commit cc7a963"""
+    return _pitfall_req('as_is', p)
 
 
 def pitfall_request_spec(p):
-    return cmd('fam_pitfall', 'spec', p['v'], p['d'], p['ny'], p['nz'], p['k'], p['edges'])
+    return _pitfall_req('spec', p)
+
+
+PITFALL_FINDING = dict(site='PitfallFormula', cls='shift_edgelit-negative-literals')
+
+
+def pitfall_alternatives(p):
+    """model variants the implementation may agree with, documented ones first.  `*_unvalidated` is the
+    argument handling before commit cc7a963 (d = v -> NetworkXError, nz = 1 -> IndexError): outside the
+    hypotheses of C03 (reported under C18), accepted silently here."""
+    return [dict(label='spec', request=_pitfall_req('spec', p), finding=None),
+            dict(label='spec_unvalidated', request=_pitfall_req('spec_unvalidated', p), finding=None),
+            dict(label='as_is', request=_pitfall_req('as_is', p), finding=PITFALL_FINDING),
+            dict(label='as_is_unvalidated', request=_pitfall_req('as_is_unvalidated', p), finding=PITFALL_FINDING)]
 
 
 def pitfall_numvar(p):
@@ -641,15 +663,16 @@ FAMILIES = [
          request=lambda p: cmd('fam_cpls', p['a'], p['b'], p['c']), numvar_doc=cpls_numvar, decode_ok=never, exists=no_object,
          cli=lambda p, t: None if p.get('malformed') else ['cpls', str(p['a']), str(p['b']), str(p['c'])]),
     dict(name='pitfall', prop='C03', kind='contradiction', impl='PitfallFormula', params=pitfall_params, build=pitfall_build,
-         request=pitfall_request, request_spec=pitfall_request_spec,
-         finding=dict(site='PitfallFormula', cls='shift_edgelit-negative-literals'),
+         request=pitfall_request, request_spec=pitfall_request_spec, alternatives=pitfall_alternatives,
          numvar_doc=pitfall_numvar, decode_ok=never, exists=no_object, cli=pitfall_cli),
     dict(name='ram', prop='C03', kind='ramsey', impl='RamseyNumber', params=ram_params, build=ram_build,
          request=lambda p: cmd('fam_ram', p['s'], p['k'], p['N']), numvar_doc=lambda p: p['N'] * (p['N'] - 1) // 2,
          decode_ok=ram_decode_ok, exists=ram_exists, cli=lambda p, t: ['ram', str(p['s']), str(p['k']), str(p['N'])]),
     dict(name='vdw', prop='C03', kind='ramsey', impl='VanDerWaerden', params=vdw_params, build=vdw_build,
-         request=lambda p: cmd('fam_vdw', 'as_is', p['N'], p['ks']), request_spec=lambda p: cmd('fam_vdw', 'spec', p['N'], p['ks']),
-         finding=dict(site='VanDerWaerden', cls='progression-length-1'),
+         request=lambda p: cmd('fam_vdw', 'spec', p['N'], p['ks']), request_spec=lambda p: cmd('fam_vdw', 'spec', p['N'], p['ks']),
+         alternatives=lambda p: [dict(label='spec', request=cmd('fam_vdw', 'spec', p['N'], p['ks']), finding=None),
+                                 dict(label='as_is', request=cmd('fam_vdw', 'as_is', p['N'], p['ks']),
+                                      finding=dict(site='VanDerWaerden', cls='progression-length-1'))],
          numvar_doc=vdw_numvar, decode_ok=vdw_decode_ok, exists=vdw_exists,
          cli=lambda p, t: ['vdw', str(p['N'])] + [str(k) for k in p['ks']]),
     dict(name='ptn', prop='C03', kind='ramsey', impl='PythagoreanTriples', params=ptn_params, build=ptn_build,
